@@ -22,6 +22,8 @@ from typing import Any
 
 ROOT = os.path.dirname(os.path.dirname(os.path.abspath(__file__)))
 REPO = os.environ.get('VERIF_REPO', '/repo')
+# evidence/ and replay/ of a run on a scratch copy can be kept apart
+OUT = os.environ.get('VERIF_OUT', ROOT)
 
 
 def load_known() -> dict[str, Any]:
@@ -55,7 +57,7 @@ def known_match(known: dict, prop: str, item: dict[str, Any]) -> dict | None:
 
 
 def write_replay(prop: str, n: int, data: dict[str, Any]) -> str:
-    d = os.path.join(ROOT, 'replay')
+    d = os.path.join(OUT, 'replay')
     os.makedirs(d, exist_ok=True)
     path = os.path.join(d, '%s-%d.json' % (prop, n))
     with open(path, 'w') as f:
@@ -309,8 +311,8 @@ def decide(
         'violations': len(violations),
         'known_findings_reported': known_lines,
     }
-    os.makedirs(os.path.join(ROOT, 'evidence'), exist_ok=True)
-    with open(os.path.join(ROOT, 'evidence', prop + '.json'), 'w') as f:
+    os.makedirs(os.path.join(OUT, 'evidence'), exist_ok=True)
+    with open(os.path.join(OUT, 'evidence', prop + '.json'), 'w') as f:
         json.dump(ev, f, indent=1, default=str)
 
     for line in known_lines:
